@@ -601,6 +601,14 @@ class BaseIOStream:
         if self._read_future is not None:
             futures.append(self._read_future)
             self._read_future = None
+            if self._user_read_buffer:
+                # The failed read_into() no longer owns the read buffer:
+                # give it back, as _finish_read() does on success, so that
+                # later reads are not served from the caller's buffer.
+                self._read_buffer = self._after_user_read_buffer or bytearray()
+                self._after_user_read_buffer = None
+                self._read_buffer_size = len(self._read_buffer)
+                self._user_read_buffer = False
         futures += [future for _, future in self._write_futures]
         self._write_futures.clear()
         if self._connect_future is not None:
